@@ -1,6 +1,7 @@
 //! Scenarios: per-property plan generation, sweeps and oracles.
 
 pub mod c16;
+pub mod c17;
 
 use crate::exec::{run_plan, Outcome, HEALTH_NONCE, LIVENESS_MS};
 use crate::http1::{build_request, hdr, BodyFraming};
@@ -123,6 +124,7 @@ pub trait Scenario: Sync {
 pub fn scenario(name: &str) -> Option<Box<dyn Scenario>> {
     match name {
         "C16" => Some(Box::new(c16::C16)),
+        "C17" => Some(Box::new(c17::C17)),
         _ => None,
     }
 }
